@@ -26,7 +26,7 @@ def smooth_kernel(cls, y, m, s):
     return ref_kernel(cls, y, m, s, 1.0)
 
 
-def case(cls, method, shape_kind, weighted, n=4, p=2, seed=0):
+def case(cls, method, shape_kind, weighted, n=4, p=2, seed=0, spread_kind='array', y_dtype='real'):
     """returns (bad, description): list of violated clauses on one random valid data set"""
     from contracts import native
     lt = native.imp('pygom.loss.loss_type')
@@ -39,9 +39,22 @@ def case(cls, method, shape_kind, weighted, n=4, p=2, seed=0):
     m = rng.uniform(0.5, 9, size=shp)
     w = rng.uniform(0.5, 2.0, size=shp) if weighted else None
     s = rng.uniform(0.6, 3.0, size=shp) if cls in SPREAD_KW else None
-    args = [y.copy()] + ([w.copy()] if weighted else [None])
-    kw = {SPREAD_KW[cls]: s.copy()} if s is not None else {}
-    desc = {'class': cls, 'method': method, 'shape': shape_kind, 'weighted': weighted, 'y': y.tolist(), 'yhat': m.tolist(),
+    if y_dtype == 'int':
+        y = y.astype(int)
+    ycall = y.copy()
+    y = y.astype(float)
+    kw = {}
+    if s is not None:
+        if spread_kind == 'array':
+            kw = {SPREAD_KW[cls]: s.copy()}
+        elif spread_kind == 'scalar':
+            sc = float(rng.uniform(0.6, 3.3))
+            kw = {SPREAD_KW[cls]: sc}
+            s = sc * np.ones(shp)
+        else:
+            s = {'Normal': 1.0, 'Gamma': 2.0, 'NegBinom': 1.0}[cls] * np.ones(shp)
+    args = [ycall] + ([w.copy()] if weighted else [None])
+    desc = {'class': cls, 'method': method, 'shape': shape_kind, 'weighted': weighted, 'spread_kind': spread_kind, 'y_dtype': y_dtype, 'y': y.tolist(), 'yhat': m.tolist(),
             'weights': None if w is None else w.tolist(), 'spread': None if s is None else s.tolist()}
     bad = []
     try:
@@ -88,14 +101,21 @@ def run(tier='quick', seed=0):
         for method in ('loss', 'diff_loss', 'diff2Loss'):
             for sk in ('vector', 'column', 'matrix'):
                 for weighted in ((False, True) if (method != 'diff2Loss' and sk == 'vector') else (False,)):
-                    for r in range(reps):
-                        bad, desc = case(cls, method, sk, weighted, n=3 + r, seed=seed + 17 * r)
-                        evals += 1
-                        distinct.add((cls, method, sk, weighted, r))
-                        if bad:
-                            failures.append({'key': '%s.%s/%s%s' % (cls, method, sk, '/weights' if weighted else ''), 'case': desc, 'observed': bad})
-                        elif len(samples) < 3:
-                            samples.append({k: desc[k] for k in ('class', 'method', 'shape', 'weighted', 'y', 'yhat')})
+                    variants = [('array', 'real')]
+                    if sk == 'vector' and not weighted:
+                        if cls in SPREAD_KW:
+                            variants += [('scalar', 'real'), ('default', 'real')]
+                        if cls in ('Poisson', 'NegBinom'):
+                            variants += [('scalar' if cls in SPREAD_KW else 'array', 'int')]
+                    for spk, ydt in variants:
+                        for r in range(reps):
+                            bad, desc = case(cls, method, sk, weighted, n=3 + r, seed=seed + 17 * r, spread_kind=spk, y_dtype=ydt)
+                            evals += 1
+                            distinct.add((cls, method, sk, weighted, spk, ydt, r))
+                            if bad:
+                                failures.append({'key': '%s.%s/%s%s/%s/%s' % (cls, method, sk, '/weights' if weighted else '', spk, ydt), 'case': desc, 'observed': bad})
+                            elif len(samples) < 3:
+                                samples.append({k: desc[k] for k in ('class', 'method', 'shape', 'weighted', 'y', 'yhat')})
     return {'evaluations': evals, 'distinct_nontrivial': len(distinct), 'failures': failures, 'samples': samples,
             'rule': 'seeded random valid data (y, yhat > 0, integer counts for Poisson/NegBinom, spread in (0.6,3)), every class x method x input shape; loss against scipy.stats log-densities, derivatives against central finite differences of the reference kernel; distinct by (class, method, shape, weights, size)',
             'bound': '%d data sets per (class, method, shape)' % reps}
@@ -103,6 +123,6 @@ def run(tier='quick', seed=0):
 
 def replay(c):
     d = c['case']
-    bad, desc = case(d['class'], d['method'], d['shape'], d['weighted'], n=len(d['y']), seed=0)
+    bad, desc = case(d['class'], d['method'], d['shape'], d['weighted'], n=len(d['y']), seed=0, spread_kind=d.get('spread_kind', 'array'), y_dtype=d.get('y_dtype', 'real'))
     # replays re-draw the same seeded data for that size; report what is observed now
     return {'reproduced': bool(bad), 'observed': bad, 'input': desc}
